@@ -223,6 +223,103 @@ class CompStmtToFor(ast.NodeTransformer):
         return node
 
 
+def _terminates(stmts):
+    return bool(stmts) and isinstance(stmts[-1], (ast.Return, ast.Raise, ast.Continue, ast.Break))
+
+
+class DropElseAfterReturn(ast.NodeTransformer):
+    """if c: ...; return X  else: B   ->   if c: ...; return X   followed by B (the else is redundant)"""
+
+    def _block(self, stmts):
+        out = []
+        for st in stmts:
+            if isinstance(st, ast.If) and st.orelse and _terminates(st.body) and not (len(st.orelse) == 1 and isinstance(st.orelse[0], ast.If)):
+                out.append(ast.If(test=st.test, body=st.body, orelse=[]))
+                out.extend(st.orelse)
+            else:
+                out.append(st)
+        return out
+
+    def generic_visit(self, node):
+        super().generic_visit(node)
+        for field in ("body", "orelse", "finalbody"):
+            v = getattr(node, field, None)
+            if isinstance(v, list) and v and isinstance(v[0], ast.stmt):
+                setattr(node, field, self._block(v))
+        return node
+
+
+class GuardClause(ast.NodeTransformer):
+    """a function that ends in `if c: body` (no else, no value returned anywhere) -> `if not c: return` + body"""
+
+    def visit_FunctionDef(self, node):
+        self.generic_visit(node)
+        if any(isinstance(n, ast.Return) and n.value is not None for n in _walk_no_nested(node)):
+            return node
+        if any(isinstance(n, (ast.Yield, ast.YieldFrom)) for n in ast.walk(node)):
+            return node
+        last = node.body[-1] if node.body else None
+        if isinstance(last, ast.If) and not last.orelse and len(node.body) > 1:
+            node.body = node.body[:-1] + [ast.If(test=ast.UnaryOp(op=ast.Not(), operand=last.test), body=[ast.Return(value=None)], orelse=[])] + last.body
+        return node
+
+
+class TernaryToIf(ast.NodeTransformer):
+    """x = a if c else b  ->  if c: x = a  else: x = b   (single plain-name target)"""
+
+    def visit_Assign(self, node):
+        if len(node.targets) == 1 and isinstance(node.targets[0], ast.Name) and isinstance(node.value, ast.IfExp):
+            t = node.targets[0]
+            return ast.If(test=node.value.test, body=[ast.Assign(targets=[copy.deepcopy(t)], value=node.value.body)],
+                          orelse=[ast.Assign(targets=[copy.deepcopy(t)], value=node.value.orelse)])
+        return node
+
+
+class IfToTernary(ast.NodeTransformer):
+    """if c: x = a  else: x = b  ->  x = a if c else b   (same single plain-name target on both sides)"""
+
+    def visit_If(self, node):
+        self.generic_visit(node)
+        if len(node.body) == 1 and len(node.orelse) == 1 and all(isinstance(b, ast.Assign) and len(b.targets) == 1 and isinstance(b.targets[0], ast.Name) for b in (node.body[0], node.orelse[0])):
+            a, b = node.body[0], node.orelse[0]
+            if a.targets[0].id == b.targets[0].id:
+                return ast.Assign(targets=[a.targets[0]], value=ast.IfExp(test=node.test, body=a.value, orelse=b.value))
+        return node
+
+
+class ReturnComparison(ast.NodeTransformer):
+    """if <comparison>: return True  /  return False   ->   return <comparison>"""
+
+    def _is_bool_expr(self, e):
+        if isinstance(e, ast.Compare):
+            return True
+        if isinstance(e, ast.BoolOp):
+            return all(self._is_bool_expr(v) for v in e.values)
+        if isinstance(e, ast.UnaryOp) and isinstance(e.op, ast.Not):
+            return True
+        return False
+
+    def _block(self, stmts):
+        out = []
+        i = 0
+        while i < len(stmts):
+            st = stmts[i]
+            nxt = stmts[i + 1] if i + 1 < len(stmts) else None
+            if (isinstance(st, ast.If) and not st.orelse and len(st.body) == 1 and isinstance(st.body[0], ast.Return) and isinstance(st.body[0].value, ast.Constant)
+                    and st.body[0].value.value is True and isinstance(nxt, ast.Return) and isinstance(nxt.value, ast.Constant) and nxt.value.value is False and self._is_bool_expr(st.test)):
+                out.append(ast.Return(value=st.test))
+                i += 2
+                continue
+            out.append(st)
+            i += 1
+        return out
+
+    def visit_FunctionDef(self, node):
+        self.generic_visit(node)
+        node.body = self._block(node.body)
+        return node
+
+
 def _apply(sources, transformer_factory):
     out = dict(sources)
     for f in PY_FILES:
@@ -266,6 +363,11 @@ def benign_variants(sources):
     v.append(("x += y -> x = x + y", _apply(sources, AugToAssign)))
     v.append(("if/else branches swapped under a negated test", _apply(sources, SwapIfElse)))
     v.append(("comprehension statements -> for loops", _apply(sources, CompStmtToFor)))
+    v.append(("redundant else after return/raise dropped", _apply(sources, DropElseAfterReturn)))
+    v.append(("trailing if turned into a guard clause", _apply(sources, GuardClause)))
+    v.append(("conditional expressions -> if/else assignments", _apply(sources, TernaryToIf)))
+    v.append(("if/else assignments -> conditional expressions", _apply(sources, IfToTernary)))
+    v.append(("if cmp: return True / return False -> return cmp", _apply(sources, ReturnComparison)))
     for ll in (80, 120):
         r = _ruff(sources, ll)
         if r is not None:
